@@ -33,6 +33,7 @@ func checkC12(c *Ctx) {
 	for _, b := range backends {
 		c.c12EvictLeast(b)
 		c.c12Wiring(b)
+		c.c12CounterPreserved(b)
 	}
 	c.c12Counter()
 }
@@ -47,30 +48,46 @@ func (c *Ctx) c12Cleanup() {
 	zero := e.IntConst(0)
 	nEvict, nNo := 0, 0
 	ovSeen := map[string]int{}
+	// a limit is established as exceeded on a path when the path's facts say limit ≠ 0 and measured > limit, the measured value being
+	// the runtime statistic (read after runtime.ReadMemStats filled it) or the Len() result that the limit is about. Derived from the
+	// facts of the path with the overflow helpers inlined, whatever their names and grouping are.
+	measuredOf := map[string]string{"HeapInUseSoftLimit": "HeapInuse", "SysMemSoftLimit": "Sys", "CountSoftLimit": "Len()"}
+	unconv := func(v *pw.Val) *pw.Val {
+		for v != nil && v.Kind == pw.KConv {
+			v = v.Src
+		}
+		return v
+	}
 	for _, p := range paths {
-		// results of the inlined overflow helpers
 		ov := map[string]bool{}
 		var cntVal *pw.Val
 		var needed tri = triUnknown
 		var lastScan, firstMeasure = -1, -1
+		limVals := map[string][]*pw.Val{}
+		measured := map[*pw.Val]string{}
+		filled := map[*pw.Val]bool{}
 		for i, ev := range p.Events {
-			if ev.Kind == pw.EvExit && ev.Fn != nil {
-				n := strings.TrimPrefix(pw.FuncName(ev.Fn), "cache.Trait.")
-				switch n {
-				case "heapInUseOverflow", "sysOverflow":
-					if len(ev.Results) == 1 {
-						if t, known := p.Truth(ev.Results[0]); known {
-							ov[n] = t
-						}
-					}
-				case "countOverflow":
-					if len(ev.Results) == 2 {
-						cntVal = ev.Results[0]
-						if t, known := p.Truth(ev.Results[1]); known {
-							ov[n] = t
-						}
+			if ev.Kind == pw.EvCall && ev.Role == "Std:runtime.ReadMemStats" && len(ev.Args) == 1 {
+				if a := ev.Args[0]; a != nil && a.Kind == pw.KAddr && a.Src != nil {
+					filled[a.Src] = true
+				} else if a != nil {
+					filled[a] = true
+				}
+			}
+			if ev.Kind == pw.EvFieldRead && ev.Field != nil {
+				switch n := ev.Field.Name(); n {
+				case "HeapInUseSoftLimit", "SysMemSoftLimit", "CountSoftLimit":
+					limVals[n] = append(limVals[n], ev.Value)
+				case "HeapInuse", "Sys", "HeapAlloc", "HeapSys", "Alloc", "TotalAlloc":
+					if rv := ev.Recv; rv != nil && !filled[rv] && !(rv.Kind == pw.KHavoc && rv.Src != nil && filled[rv.Src]) {
+						r.Bad("R12.1", "Trait.invokeCleanup", "stale-memstats", c.Pos(ev.Pos), "memory statistics are read without runtime.ReadMemStats having filled them", shortTrace(p))
+					} else {
+						measured[ev.Value] = n
 					}
 				}
+			}
+			if ev.Kind == pw.EvCall && ev.Role == "DynField:Len" && len(ev.Results) == 1 {
+				measured[ev.Results[0]] = "Len()"
 			}
 			if ev.Kind == pw.EvCall && ev.Role == "DynField:EvictionNeeded" {
 				if t, known := p.Truth(ev.Results[0]); known {
@@ -84,13 +101,34 @@ func (c *Ctx) c12Cleanup() {
 				firstMeasure = i
 			}
 		}
+		for pair, rel := range p.RelFacts() {
+			a, b := e.Vals[pair[0]], e.Vals[pair[1]]
+			if a == nil || b == nil || rel != pw.RGt && rel != pw.RLt {
+				continue
+			}
+			if rel == pw.RLt {
+				a, b = b, a
+			}
+			// a > b
+			ua, ub := unconv(a), unconv(b)
+			for lim, vals := range limVals {
+				for _, lv := range vals {
+					if ub == lv && measured[ua] == measuredOf[lim] && p.Rel(lv, zero)&pw.REq == 0 {
+						ov[lim] = true
+						if lim == "CountSoftLimit" {
+							cntVal = ua
+						}
+					}
+				}
+			}
+		}
 		for k, v := range ov {
 			if v {
 				ovSeen[k]++
 			}
 		}
 		evicts := p.Calls("DynField:Evict")
-		breach := ov["heapInUseOverflow"] || ov["sysOverflow"] || ov["countOverflow"] || needed == triTrue
+		breach := ov["HeapInUseSoftLimit"] || ov["SysMemSoftLimit"] || ov["CountSoftLimit"] || needed == triTrue
 		if len(evicts) == 0 {
 			nNo++
 			// converse: an established breach (or EvictionNeeded()==true) must reach the evictor when one is installed
@@ -160,7 +198,7 @@ func (c *Ctx) c12Cleanup() {
 		if defaulted {
 			fp = poly.Rat(1, 10)
 			// typed float constant: compare as float
-			if cst, ok := got.IsConst(); ok && !ov["countOverflow"] {
+			if cst, ok := got.IsConst(); ok && !ov["CountSoftLimit"] {
 				if !sameFloat(cst, big.NewRat(1, 10)) {
 					r.Bad("R12.2", "Trait.invokeCleanup", "default-fraction", c.Pos(ev.Pos), fmt.Sprintf("default fraction is %s, documented 0.1", cst.RatString()), shortTrace(p))
 				}
@@ -168,7 +206,7 @@ func (c *Ctx) c12Cleanup() {
 			}
 		}
 		want := fp
-		if ov["countOverflow"] {
+		if ov["CountSoftLimit"] {
 			want = poly.Int(1).Sub(poly.Atom("L").Mul(poly.Int(1).Sub(fp)).Div(poly.Atom("n")))
 			if defaulted {
 				// the default constant appears as the float64 rounding of 0.1 in the code's polynomial
@@ -186,93 +224,17 @@ func (c *Ctx) c12Cleanup() {
 			}
 		}
 	}
-	if nEvict == 0 || nNo == 0 || ovSeen["countOverflow"] == 0 || ovSeen["heapInUseOverflow"] == 0 || ovSeen["sysOverflow"] == 0 {
+	for _, lim := range []string{"HeapInUseSoftLimit", "SysMemSoftLimit", "CountSoftLimit"} {
+		if ovSeen[lim] > 0 {
+			r.OK("R12.1", "Config."+lim, fmt.Sprintf("%d paths establish %s ≠ 0 ∧ %s > %s", ovSeen[lim], lim, measuredOf[lim], lim))
+		}
+	}
+	if nEvict == 0 || nNo == 0 || ovSeen["CountSoftLimit"] == 0 || ovSeen["HeapInUseSoftLimit"] == 0 || ovSeen["SysMemSoftLimit"] == 0 {
 		r.Unknown("R12.1", "Trait.invokeCleanup", fmt.Sprintf("vacuous: evicting=%d non-evicting=%d overflow paths=%v", nEvict, nNo, ovSeen))
 	}
 	for _, rule := range []string{"R12.1", "R12.2"} {
 		if !hasViolation(r.Obls, rule, "Trait.invokeCleanup") {
 			r.OK(rule, "Trait.invokeCleanup", fmt.Sprintf("%d evicting paths, %d non-evicting paths", nEvict, nNo))
-		}
-	}
-	// overflow predicates
-	for _, h := range []struct{ fn, limit string }{{"Trait.heapInUseOverflow", "HeapInUseSoftLimit"}, {"Trait.sysOverflow", "SysMemSoftLimit"}, {"Trait.countOverflow", "CountSoftLimit"}} {
-		e, hp, _, err := c.runFunc(h.fn, pw.Policy{})
-		if err != nil {
-			r.Unknown("R12.1", h.fn, err.Error())
-			continue
-		}
-		z := e.IntConst(0)
-		nT := 0
-		bad := false
-		for _, p := range hp {
-			res := p.Ret[len(p.Ret)-1]
-			t, known := p.Truth(res)
-			if !known {
-				r.Bad("R12.1", h.fn, "non-constant", c.Pos(p.RetPos), "overflow result is not decided per path", shortTrace(p))
-				bad = true
-				continue
-			}
-			if !t {
-				continue
-			}
-			nT++
-			if h.limit != "CountSoftLimit" {
-				read := false
-				for _, ev := range p.Events {
-					if ev.Kind == pw.EvCall && ev.Role == "Std:runtime.ReadMemStats" {
-						read = true
-					}
-					if ev.Kind == pw.EvFieldRead && ev.Field != nil && (ev.Field.Name() == "HeapInuse" || ev.Field.Name() == "Sys" || ev.Field.Name() == "HeapAlloc") && !read {
-						r.Bad("R12.1", h.fn, "stale-memstats", c.Pos(ev.Pos), "memory statistics are read without runtime.ReadMemStats having filled them", shortTrace(p))
-						bad = true
-					}
-				}
-				if !read {
-					r.Bad("R12.1", h.fn, "no-memstats", c.Pos(p.RetPos), "overflow is decided without reading the runtime's memory statistics", shortTrace(p))
-					bad = true
-				}
-			}
-			var lim *pw.Val
-			for _, ev := range p.Events {
-				if ev.Kind == pw.EvFieldRead && ev.Field != nil && ev.Field.Name() == h.limit {
-					lim = ev.Value
-				}
-			}
-			ok := lim != nil && p.Rel(lim, z)&pw.REq == 0
-			if ok {
-				// some value measured > limit (or a conversion of it)
-				found := false
-				for pair, rel := range p.RelFacts() {
-					a, b := e.Vals[pair[0]], e.Vals[pair[1]]
-					isLim := func(v *pw.Val) bool {
-						for x := v; x != nil; x = x.Src {
-							if x == lim {
-								return true
-							}
-							if x.Kind != pw.KConv {
-								return false
-							}
-						}
-						return false
-					}
-					if a == nil || b == nil {
-						continue
-					}
-					if isLim(b) && !isLim(a) && a.Kind != pw.KConst && rel == pw.RGt || isLim(a) && !isLim(b) && b.Kind != pw.KConst && rel == pw.RLt {
-						found = true
-					}
-				}
-				ok = found
-			}
-			if !ok {
-				r.Bad("R12.1", h.fn, "overflow-without-breach", c.Pos(p.RetPos), "overflow reported on a path that does not establish "+h.limit+" ≠ 0 ∧ measured > "+h.limit, shortTrace(p))
-				bad = true
-			}
-		}
-		if nT == 0 {
-			r.Unknown("R12.1", h.fn, "never reports overflow")
-		} else if !bad {
-			r.OK("R12.1", h.fn, fmt.Sprintf("%d overflow paths imply limit≠0 ∧ measured>limit", nT))
 		}
 	}
 	// who references the evict functions: only the constructors (as callbacks) and the evict* wrappers
@@ -311,6 +273,42 @@ func (c *Ctx) c12Cleanup() {
 		r.Unknown("R12.1", "package:evict-references", fmt.Sprintf("only %d references to evict functions", nRef))
 	} else if !bad {
 		r.OK("R12.1", "package:evict-references", fmt.Sprintf("%d references, all constructor wiring or evict wrappers", nRef))
+	}
+}
+
+// c12CounterPreserved: when a stored entry is replaced by a copy (ExpireAll's copy-on-write), the usage counter moves along.
+func (c *Ctx) c12CounterPreserved(b BK) {
+	r := c.R
+	op := b.Name + ".ExpireAll"
+	run := c.bk(b, op, false)
+	if run.err != nil {
+		r.Unknown("R12.3", op, run.err.Error())
+		return
+	}
+	n, bad := 0, false
+	for _, p := range run.paths {
+		for _, ev := range p.Events {
+			var ent *pw.Val
+			if b.Sharded && ev.Kind == pw.EvMapInsert && isShardData(ev) {
+				ent = pointee(ev.Value)
+			}
+			if !b.Sharded && syncMapOp(ev) == "Store" && len(ev.Args) == 2 {
+				ent = pointee(ev.Args[1])
+			}
+			if ent == nil || ent.Kind != pw.KAlloc {
+				continue
+			}
+			n++
+			cv := ent.Fields["C"]
+			ok := cv != nil && cv.Kind == pw.KCall && cv.Ev != nil && cv.Ev.Role == "Std:atomic.LoadInt64" && len(cv.Ev.Args) == 1 && cv.Ev.Args[0].Field != nil && cv.Ev.Args[0].Field.Name() == "C"
+			if !ok {
+				r.Bad("R12.3", op, "usage-counter-dropped", c.Pos(ev.Pos), "ExpireAll replaces a stored entry by a copy that does not carry the usage counter C (atomic load of the old one): LRU/LFU ranks are reset, the next eviction removes arbitrary entries", shortTrace(p))
+				bad = true
+			}
+		}
+	}
+	if !bad {
+		r.OK("R12.3", op, fmt.Sprintf("%d replaced entries carry the usage counter (in-place expiry keeps it trivially)", n))
 	}
 }
 
